@@ -7,8 +7,8 @@
     The operations are NOT written by hand: they INTERPRET the statement skeletons which
     translator/seqreg.py regenerates from the source on every run ([reg_pre], [reg_occupied],
     [reg_vacant], [reg_post], [unreg], [unreg_signal], [handler_*], [entry_checked]); this file only
-    gives each recognised statement its meaning on a call frame (clone - modify - publish; `?` and a
-    failed assert end the call without reaching the publish).
+    gives each recognised statement its meaning on a call frame, in continuation-passing style
+    (clone - modify - publish; `?` and a failed assert end the call without reaching the publish).
     Definitions only. *)
 From Coq Require Import ZArith NArith List Bool.
 From SH Require Import gen.Extracted_seqreg seqreg.Spec.
@@ -70,22 +70,19 @@ Record frame := mk_frame {
   f_sd : sigdata;             (* the local clone `sigdata` *)
   f_id : N;                   (* `id` *)
   f_slot : option slot;       (* `slot` of the Vacant arm *)
-  f_replace : bool;           (* `replace` *)
-  f_res : option out }.       (* Some _ once the call has returned / unwound *)
+  f_replace : bool }.         (* `replace` *)
 
 Definition frame_of (c : cstate) : frame :=
-  mk_frame (data c) (os c) (fallback c) (data c) 0%N None false None.
-Definition state_of (f : frame) : cstate := mk_cstate (f_pub f) (f_os f) (f_fb f).
-Definition result_of (f : frame) : out := match f_res f with Some o => o | None => ONone end.
+  mk_frame (data c) (os c) (fallback c) (data c) 0%N None false.
+(** the call ends (return, `?`, unwinding): locals are dropped, the globals are what they are *)
+Definition finish (f : frame) (o : out) : cstate * out := (mk_cstate (f_pub f) (f_os f) (f_fb f), o).
 
 Definition with_sd (f : frame) (x : sigdata) :=
-  mk_frame (f_pub f) (f_os f) (f_fb f) x (f_id f) (f_slot f) (f_replace f) (f_res f).
-Definition with_res (f : frame) (x : out) :=
-  mk_frame (f_pub f) (f_os f) (f_fb f) (f_sd f) (f_id f) (f_slot f) (f_replace f) (Some x).
+  mk_frame (f_pub f) (f_os f) (f_fb f) x (f_id f) (f_slot f) (f_replace f).
 Definition with_pub (f : frame) (x : sigdata) :=
-  mk_frame x (f_os f) (f_fb f) (f_sd f) (f_id f) (f_slot f) (f_replace f) (f_res f).
+  mk_frame x (f_os f) (f_fb f) (f_sd f) (f_id f) (f_slot f) (f_replace f).
 Definition with_replace (f : frame) (x : bool) :=
-  mk_frame (f_pub f) (f_os f) (f_fb f) (f_sd f) (f_id f) (f_slot f) x (f_res f).
+  mk_frame (f_pub f) (f_os f) (f_fb f) (f_sd f) (f_id f) (f_slot f) x.
 
 Section Concrete.
   (** The operating system is an oracle: does sigaction(sig, NULL, &old) succeed, does
@@ -94,75 +91,85 @@ Section Concrete.
   Variable query_ok : Z -> bool.
   Variable set_ok : Z -> bool.
 
-  (** meaning of one statement; [sig] [ida] [tag] are the call's arguments *)
-  Definition exec_instr (sig : Z) (ida : N) (tag : Z) (i : instr) (f : frame) : frame :=
+  (** meaning of one statement, in continuation-passing style: [k] is the rest of the function;
+      [sig] [ida] [tag] are the call's arguments *)
+  Definition exec_instr (sig : Z) (ida : N) (tag : Z) (i : instr) (f : frame)
+             (k : frame -> cstate * out) : cstate * out :=
     match i with
-    | IClone => with_sd f (f_pub f)
-    | ITakeId => mk_frame (f_pub f) (f_os f) (f_fb f) (f_sd f) (next_id (f_sd f)) (f_slot f) (f_replace f) (f_res f)
-    | IIncNext => with_sd f (mk_sigdata (signals (f_sd f)) ((next_id (f_sd f) + 1) mod id_mod)%N)
+    | IClone => k (with_sd f (f_pub f))
+    | ITakeId => k (mk_frame (f_pub f) (f_os f) (f_fb f) (f_sd f) (next_id (f_sd f)) (f_slot f) (f_replace f))
+    | IIncNext => k (with_sd f (mk_sigdata (signals (f_sd f)) ((next_id (f_sd f) + 1) mod id_mod)%N))
     | IInsertOccupied =>
         match zlookup sig (signals (f_sd f)) with
         | Some sl =>
-            let '(a', old) := bt_insert (f_id f) tag (s_actions sl) in
-            let f' := with_sd f (mk_sigdata (zupdate sig (mk_slot (s_prev sl) a') (signals (f_sd f))) (next_id (f_sd f))) in
-            if is_some old then with_res f' OPanic (* assert!(.. .is_none()) *) else f'
-        | None => with_res f ONone
+            let f' := with_sd f (mk_sigdata (zupdate sig (mk_slot (s_prev sl) (fst (bt_insert (f_id f) tag (s_actions sl))))
+                                                     (signals (f_sd f))) (next_id (f_sd f))) in
+            if is_some (snd (bt_insert (f_id f) tag (s_actions sl)))
+            then finish f' OPanic   (* assert!(.. .is_none()) fails: unwinds, the clone is dropped *)
+            else k f'
+        | None => finish f ONone
         end
     | IFallbackStoreDetectQ =>
         if query_ok sig
-        then mk_frame (f_pub f) (f_os f) (Some (mk_prev sig (os_get (f_os f) sig))) (f_sd f) (f_id f) (f_slot f) (f_replace f) (f_res f)
-        else with_res f OErr
+        then k (mk_frame (f_pub f) (f_os f) (Some (mk_prev sig (os_get (f_os f) sig))) (f_sd f) (f_id f) (f_slot f) (f_replace f))
+        else finish f OErr         (* `?` : returns before the fallback store *)
     | ISlotNewQ =>
         if set_ok sig
-        then mk_frame (f_pub f) ((sig, DLib sa_flags) :: f_os f) (f_fb f) (f_sd f) (f_id f)
-                      (Some (mk_slot (mk_prev sig (os_get (f_os f) sig)) [])) (f_replace f) (f_res f)
-        else with_res f OErr
+        then k (mk_frame (f_pub f) ((sig, DLib sa_flags) :: f_os f) (f_fb f) (f_sd f) (f_id f)
+                         (Some (mk_slot (mk_prev sig (os_get (f_os f) sig)) [])) (f_replace f))
+        else finish f OErr         (* `?` *)
     | ISlotInsert =>
         match f_slot f with
-        | Some sl => mk_frame (f_pub f) (f_os f) (f_fb f) (f_sd f) (f_id f)
-                       (Some (mk_slot (s_prev sl) (fst (bt_insert (f_id f) tag (s_actions sl))))) (f_replace f) (f_res f)
-        | None => with_res f ONone
+        | Some sl => k (mk_frame (f_pub f) (f_os f) (f_fb f) (f_sd f) (f_id f)
+                          (Some (mk_slot (s_prev sl) (fst (bt_insert (f_id f) tag (s_actions sl))))) (f_replace f))
+        | None => finish f ONone
         end
     | IPlaceInsert =>
         match f_slot f with
-        | Some sl => with_sd f (mk_sigdata (signals (f_sd f) ++ [(sig, sl)]) (next_id (f_sd f)))
-        | None => with_res f ONone
+        | Some sl => k (with_sd f (mk_sigdata (signals (f_sd f) ++ [(sig, sl)]) (next_id (f_sd f))))
+        | None => finish f ONone
         end
-    | IStore => with_pub f (f_sd f)
-    | IStoreIfReplace => if f_replace f then with_pub f (f_sd f) else f
-    | IRetOkId => with_res f (OId (f_id f))
+    | IStore => k (with_pub f (f_sd f))
+    | IStoreIfReplace => if f_replace f then k (with_pub f (f_sd f)) else k f
+    | IRetOkId => finish f (OId (f_id f))
     | IRemoveInSlot =>
         match zlookup sig (signals (f_sd f)) with
         | Some sl =>
-            let '(a', old) := bt_remove ida (s_actions sl) in
-            with_replace (with_sd f (mk_sigdata (zupdate sig (mk_slot (s_prev sl) a') (signals (f_sd f))) (next_id (f_sd f))))
-                         (is_some old)
-        | None => f
+            k (with_replace (with_sd f (mk_sigdata (zupdate sig (mk_slot (s_prev sl) (fst (bt_remove ida (s_actions sl))))
+                                                            (signals (f_sd f))) (next_id (f_sd f))))
+                            (is_some (snd (bt_remove ida (s_actions sl)))))
+        | None => k f
         end
     | IClearInSlotIfNonEmpty =>
         match zlookup sig (signals (f_sd f)) with
         | Some sl =>
             match s_actions sl with
-            | [] => f
-            | _ :: _ => with_replace (with_sd f (mk_sigdata (zupdate sig (mk_slot (s_prev sl) []) (signals (f_sd f))) (next_id (f_sd f)))) true
+            | [] => k f
+            | _ :: _ => k (with_replace (with_sd f (mk_sigdata (zupdate sig (mk_slot (s_prev sl) []) (signals (f_sd f))) (next_id (f_sd f)))) true)
             end
-        | None => f
+        | None => k f
         end
-    | IRetReplace => with_res f (OBool (f_replace f))
+    | IRetReplace => finish f (OBool (f_replace f))
     end.
 
-  Definition exec_block (sig : Z) (ida : N) (tag : Z) (is : list instr) (f : frame) : frame :=
-    fold_left (fun f i => match f_res f with Some _ => f | None => exec_instr sig ida tag i f end) is f.
+  Fixpoint exec_block (sig : Z) (ida : N) (tag : Z) (is : list instr) (f : frame)
+           (k : frame -> cstate * out) : cstate * out :=
+    match is with
+    | [] => k f
+    | i :: r => exec_instr sig ida tag i f (fun f' => exec_block sig ida tag r f' k)
+    end.
+
+  (** a function body that ends without a return statement *)
+  Definition fell_off (f : frame) : cstate * out := finish f ONone.
 
   (** register_unchecked_impl : prefix; match sigdata.signals.entry(signal) {Occupied | Vacant}; suffix *)
   Definition c_register_unchecked (c : cstate) (sig tag : Z) : cstate * out :=
-    let f1 := exec_block sig 0%N tag reg_pre (frame_of c) in
-    let f2 := match zlookup sig (signals (f_sd f1)) with
-              | Some _ => exec_block sig 0%N tag reg_occupied f1
-              | None => exec_block sig 0%N tag reg_vacant f1
-              end in
-    let f3 := exec_block sig 0%N tag reg_post f2 in
-    (state_of f3, result_of f3).
+    exec_block sig 0%N tag reg_pre (frame_of c) (fun f1 =>
+      let rest := fun f2 => exec_block sig 0%N tag reg_post f2 fell_off in
+      match zlookup sig (signals (f_sd f1)) with
+      | Some _ => exec_block sig 0%N tag reg_occupied f1 rest
+      | None => exec_block sig 0%N tag reg_vacant f1 rest
+      end).
 
   (** register / register_sigaction -> register_sigaction_impl *)
   Fixpoint exec_entry (es : list einstr) (c : cstate) (sig tag : Z) : cstate * out :=
@@ -174,9 +181,9 @@ Section Concrete.
   Definition c_register (c : cstate) (sig tag : Z) := exec_entry entry_checked c sig tag.
 
   Definition c_unregister (c : cstate) (sig : Z) (id : N) : cstate * out :=
-    let f := exec_block sig id 0 unreg (frame_of c) in (state_of f, result_of f).
+    exec_block sig id 0 unreg (frame_of c) fell_off.
   Definition c_unregister_signal (c : cstate) (sig : Z) : cstate * out :=
-    let f := exec_block sig 0%N 0 unreg_signal (frame_of c) in (state_of f, result_of f).
+    exec_block sig 0%N 0 unreg_signal (frame_of c) fell_off.
 
   (** the dispatcher: what one run of `handler(sig, ..)` executes *)
   Record hframe := mk_hframe { h_fb : option (option prev); h_sd : option sigdata; h_out : list Z }.
